@@ -83,6 +83,41 @@ def calls_of(name, modules=None):
 _PARENTS = {}
 
 
+def _module_level_value(name, modules):
+    for m in modules or repo.all_repo_modules():
+        try:
+            for st in repo.module_ast(m).body:
+                if isinstance(st, ast.Assign) and len(st.targets) == 1 and isinstance(st.targets[0], ast.Name) and st.targets[0].id == name:
+                    return st.value
+        except (FileNotFoundError, SyntaxError):
+            continue
+    return None
+
+
+def _strings_of_selected_table(fn, it, modules, depth=0):
+    if depth > 3:
+        return None
+    if isinstance(it, ast.Name):
+        v = _module_level_value(it.id, modules)
+        if v is not None:
+            if any(isinstance(x, (ast.Call, ast.Lambda)) for x in ast.walk(v) if not (isinstance(x, ast.Call) and isinstance(x.func, ast.Name) and x.func.id in ('tuple', 'list', 'dict', 'frozenset'))):
+                return None
+            return {c.value for c in ast.walk(v) if isinstance(c, ast.Constant) and isinstance(c.value, str) and c.value.isidentifier()}
+        local = [st for st in ast.walk(fn) if isinstance(st, ast.Assign) and len(st.targets) == 1 and isinstance(st.targets[0], ast.Name) and st.targets[0].id == it.id]
+        if len(local) != 1:
+            return None
+        return _strings_of_selected_table(fn, local[0].value, modules, depth + 1)
+    if isinstance(it, ast.Call) and isinstance(it.func, ast.Name) and it.func.id in ('next', 'list', 'tuple', 'sorted', 'reversed', 'iter') and it.args:
+        return _strings_of_selected_table(fn, it.args[0], modules, depth + 1)
+    if isinstance(it, (ast.GeneratorExp, ast.ListComp)) and len(it.generators) == 1:
+        return _strings_of_selected_table(fn, it.generators[0].iter, modules, depth + 1)
+    if isinstance(it, ast.Subscript):
+        return _strings_of_selected_table(fn, it.value, modules, depth + 1)
+    if isinstance(it, ast.Call) and isinstance(it.func, ast.Attribute) and it.func.attr in ('get', 'items', 'values', 'keys'):
+        return _strings_of_selected_table(fn, it.func.value, modules, depth + 1)
+    return None
+
+
 def _dynamic_attr_names(call, modules):
     """setattr(obj, NAME, v) where NAME is a parameter of the enclosing function: the set of string literals passed for that parameter at every call site
     of the function (by bare name or attribute name) in the scanned modules, or None when some call site passes something else (then: any attribute)"""
@@ -144,7 +179,14 @@ def _dynamic_attr_names(call, modules):
             except Exception:
                 items = consts.get(it.id) if isinstance(it, ast.Name) else None
             if not isinstance(items, (tuple, list)):
-                return None
+                # a local bound to a selection from a module-level table that is not a pure literal (it mentions classes):
+                #   children = next(attrs for cls, attrs in _TABLE if isinstance(node, cls));  for attr, flag in children: setattr(node, attr, ...)
+                # over-approximation: the name is one of the identifier-like string constants written inside that table
+                more = _strings_of_selected_table(fn, it, modules)
+                if more is None:
+                    return None
+                names |= more
+                continue
             for el in items:
                 v = el if pos == -1 else (el[pos] if isinstance(el, (tuple, list)) and len(el) > pos else None)
                 if not isinstance(v, str):
